@@ -3,13 +3,39 @@
    the documented interpolation.  (For exponential epochs between-ness is a statement about
    exp/log on reals and is evaluated on the implementation's answers; DESIGN.md, C13.) *)
 From Coq Require Import Bool List String QArith Qabs Lqa Lia ZArith.
-From Demes Require Import Base.Num Base.NumQ Base.Py Model.MDM Model.SizeAt Spec.Valid.
+From Demes Require Import Base.Num Base.NumQ Base.Py Model.MDM Model.SizeAt Spec.Valid Proofs.SizeAtProofs.
 Import ListNotations.
 Local Open Scope string_scope.
 Local Open Scope list_scope.
 
 (* a finite value of the instance and the rational it carries *)
 Definition qval (x : qx) : option Q := match x with QF a _ => Some a | _ => None end.
+
+(* in exact rational arithmetic the final clamp of size_at is the identity on every value between
+   the two sizes *)
+Lemma clamp_id_Q (e : @epoch NumQ) ss i es j x k :
+  e_ssize e = QF ss i -> e_esize e = QF es j ->
+  ((ss <= x /\ x <= es) \/ (es <= x /\ x <= ss))%Q ->
+  @clamp_size NumQ e (QF x k) = QF x k.
+Proof.
+  intros Ess Ees Hx. apply (@clamp_id NumQ NumQLaws); rewrite Ess, Ees; unfold pymin, pymax; cbn.
+  - destruct (Qlt_bool es ss) eqn:A; [apply Qlt_bool_true in A|apply Qlt_bool_false in A];
+      cbn; apply Qle_bool_iff; lra.
+  - destruct (Qlt_bool ss es) eqn:A; [apply Qlt_bool_true in A|apply Qlt_bool_false in A];
+      cbn; apply Qle_bool_iff; lra.
+Qed.
+
+Lemma frac_unit (s en tt : Q) : (en <= tt -> tt < s -> 0 <= (s - tt) / (s - en) <= 1)%Q.
+Proof.
+  intros H1 H2. split.
+  - apply Qle_shift_div_l; lra.
+  - apply Qle_shift_div_r; lra.
+Qed.
+
+Lemma lin_between_Q (ss es f : Q) :
+  (0 <= f <= 1 -> (ss <= ss + (es - ss) * f /\ ss + (es - ss) * f <= es) \/
+                  (es <= ss + (es - ss) * f /\ ss + (es - ss) * f <= ss))%Q.
+Proof. intros [F0 F1]. destruct (Qlt_le_dec es ss) as [L|L]; [right|left]; split; nra. Qed.
 
 (* common core: sizes are finite; either the "end size" branch fires, or all times are finite,
    en <= t < s, and the linear formula evaluates without error to the exact interpolation *)
@@ -29,21 +55,26 @@ Proof.
   destruct ss as [ss i| | |]; cbn in H4, H4'; try discriminate.
   destruct es as [es j| | |]; cbn in H5, H5'; try discriminate.
   exists ss, es, i, j. split; [reflexivity|]. split; [reflexivity|].
-  unfold size_in_epoch. cbn [e_start e_end e_ssize e_esize e_sf].
-  destruct (@isclose0 NumQ t en) eqn:Hc; [left; reflexivity|].
+  set (E := {| e_start := st; e_end := en; e_ssize := QF ss i; e_esize := QF es j;
+               e_sf := "linear"; e_self := self; e_clone := clone |}).
+  unfold size_in_epoch. cbn [E e_start e_end e_ssize e_esize e_sf].
+  destruct (@isclose0 NumQ t en) eqn:Hc; [left; cbn [orb]; f_equal; exact (clamp_esize E)|].
   simpl String.eqb. cbn [orb].
-  destruct (@neqb NumQ (QF ss i) (QF es j)) eqn:He; [left; reflexivity|]. right.
+  destruct (@neqb NumQ (QF ss i) (QF es j)) eqn:He; [left; cbn [orb]; f_equal; exact (clamp_esize E)|]. right.
   destruct en as [en i2| | |]; cbn in H1, H2; try discriminate.
   destruct t as [tt i3| | |]; cbn in Ho1, Ho2; try discriminate;
     try (destruct st; discriminate).
   destruct st as [s i1| | |]; cbn in H3, Ho1, Hinf; try discriminate.
   2:{ specialize (Hinf eq_refl). cbn in He, Hinf. congruence. }
   apply Qlt_bool_true in H3, Ho1. apply Qle_bool_iff in Ho2.
-  exists s, en, tt, i1, i2, i3. 
-  unfold pdiv. cbn.
+  exists s, en, tt, i1, i2, i3.
+  unfold pdiv. cbn [nsub NumQ qx_sub neqb qx_eqb n0].
   destruct (Qeq_bool (s - en) 0) eqn:Hz.
   { apply Qeq_bool_iff in Hz. lra. }
-  cbn. eexists. repeat (split; [reflexivity || assumption|]). reflexivity.
+  cbn [bind ndiv NumQ qx_div nsub qx_sub nmul qx_mul nadd qx_add]. rewrite Hz.
+  eexists. repeat (split; [reflexivity || assumption|]).
+  f_equal. apply (clamp_id_Q E ss i es j); [reflexivity|reflexivity|].
+  apply lin_between_Q. now apply frac_unit.
 Qed.
 
 (* in a valid linear epoch owned by t, size_at's formula evaluates, without error, to the exact
@@ -65,13 +96,6 @@ Proof.
     exists s, en, ss, es, tt. eexists.
     rewrite Es, Een, Ess, Ees, Et. cbn.
     repeat (split; [reflexivity|]). reflexivity.
-Qed.
-
-Lemma frac_unit (s en tt : Q) : (en <= tt -> tt < s -> 0 <= (s - tt) / (s - en) <= 1)%Q.
-Proof.
-  intros H1 H2. split.
-  - apply Qle_shift_div_l; lra.
-  - apply Qle_shift_div_r; lra.
 Qed.
 
 Theorem size_between_linear_Q (e : @epoch NumQ) (t v : qx) :
